@@ -798,3 +798,72 @@ func (c *Ctx) ReturnsConst(rule string, fn *ssa.Function, idx int, want Pat, wan
 	}
 	c.ok(rule, key, fn.Pos(), fmt.Sprintf("%s returns %s on every path", fnKey(fn), wantDesc))
 }
+
+// ---------------------------------------------------------------------------
+// Guard decision tables over the CFG (E8 on branch structure): starting at a
+// program point, every branch met must test one of the declared comparison
+// atoms; for each assignment of truth values to the atoms the walk follows the
+// corresponding edges until it reaches an instruction classified by outcome.
+// The resulting table is compared with a reference formula.  Nothing is
+// executed: atoms are opaque booleans.
+
+type CmpAtom struct {
+	Name     string
+	Lhs, Rhs Pat
+	Op       token.Token
+}
+
+// DecisionTable returns, for each of the 2^n assignments (bit i = atom i true),
+// the outcome label, or an error string when a branch tests something else.
+func DecisionTable(start Point, atoms []CmpAtom, outcome func(ssa.Instruction) string) ([]string, string) {
+	n := len(atoms)
+	res := make([]string, 1<<n)
+	for row := 0; row < 1<<n; row++ {
+		p := start
+		steps := 0
+		for {
+			steps++
+			if steps > 10000 || p.B == nil {
+				return nil, "walk did not reach an outcome"
+			}
+			if p.I >= len(p.B.Instrs) {
+				return nil, "fell off a block"
+			}
+			in := p.B.Instrs[p.I]
+			if lab := outcome(in); lab != "" {
+				res[row] = lab
+				break
+			}
+			if p.I < len(p.B.Instrs)-1 {
+				p.I++
+				continue
+			}
+			switch t := in.(type) {
+			case *ssa.Jump:
+				p = Point{p.B.Succs[0], 0}
+			case *ssa.If:
+				cond := condOf(t)
+				matched := false
+				for ai, a := range atoms {
+					if m, pol := CmpMatch(cond, a.Lhs, a.Op, a.Rhs); m {
+						val := row&(1<<ai) != 0
+						// condition true exactly when (atom == pol)
+						if val == pol {
+							p = Point{p.B.Succs[0], 0}
+						} else {
+							p = Point{p.B.Succs[1], 0}
+						}
+						matched = true
+						break
+					}
+				}
+				if !matched {
+					return nil, "branch tests something other than the declared atoms: " + trunc(cond.String(), 160)
+				}
+			default:
+				return nil, "reached a function exit before an outcome"
+			}
+		}
+	}
+	return res, ""
+}
